@@ -268,8 +268,10 @@ class Check:
             'wall_s': round(wall, 2),
             'violations': len(self.violations),
         }
-        os.makedirs(os.path.join(VERIF, 'evidence'), exist_ok=True)
-        with open(os.path.join(VERIF, 'evidence', self.pid + '.json'), 'w') as f:
+        # runs against another checkout (VERIF_REPO, used to try seeded changes) keep their evidence apart
+        evdir = os.path.join(VERIF, 'evidence') if 'VERIF_REPO' not in os.environ else os.path.join('/var/tmp/verif-evidence-alt', os.path.basename(REPO))
+        os.makedirs(evdir, exist_ok=True)
+        with open(os.path.join(evdir, self.pid + '.json'), 'w') as f:
             json.dump(ev, f, indent=1, default=str, ensure_ascii=False)
         for k in self.known_hits:
             print('KNOWN-FINDING: property=%s %s' % (self.pid, k['what']))
